@@ -102,6 +102,10 @@ def main(argv):
     truncated = _raw.get("truncated", 0) if ok else 0
     mism = sorted(i for i, c in bad_codes.items() if c & 1)
     specfail = sorted(i for i, c in bad_codes.items() if c & 2)
+    oracle_bad = sorted(i for i, c in bad_codes.items() if c & 4)
+    if oracle_bad:
+        broken.append(("oracle", "the Coq spec oracle disagrees with the reference library on %d cases (first: case %d)" % (len(oracle_bad), oracle_bad[0]),
+                       json.dumps(common.to_jsonable({"case": cases[oracle_bad[0]], "impl_output": results[oracle_bad[0]]}))[:1500]))
     if ok and not errors and not mism:
         discharged += 1
 
